@@ -14,7 +14,7 @@ import (
 func init() {
 	register("C19", &propDef{
 		Title: "No entry point panics, crashes or hangs on any input",
-		Rules: []func(*Checker){ruleC19Recursion, ruleC19Block, ruleC19Index, ruleC19Panics, ruleC19LibPanics, ruleC19NilField, ruleTraceCalls("C19.nilcall"), ruleAddrErrors("C19.errors"), ruleLockBalanced("C19.balanced"), ruleTracerNonNil("C19.tracer"), ruleRootHops("C19.hops"), ruleC05Resolve("C19.resolve"), ruleC19HostLabel, ruleFilesClosed("C19.closed")},
+		Rules: []func(*Checker){ruleC19Recursion, ruleC19Block, ruleC19Index, ruleC19Panics, ruleC19LibPanics, ruleC19NilField, ruleTraceCalls("C19.nilcall"), ruleAddrErrors("C19.errors"), ruleLockBalanced("C19.balanced"), ruleTracerNonNil("C19.tracer"), ruleRootHops("C19.hops"), ruleC05Resolve("C19.resolve"), ruleC19HostLabel, ruleFilesClosed("C19.closed"), ruleC19OkUse, ruleWalkErrParam("C19.walkerr")},
 		NotDecided: []string{
 			"total running time; panics inside libraries",
 			"explicit 'cannot happen' panics whose unreachability rests on library behaviour are inventoried (C19.panics) and their guards checked where structural, but not proved unreachable",
@@ -1411,4 +1411,176 @@ func ruleC19HostLabel(c *Checker) {
 		}
 	}
 	c.check(okLen, R, name, "over-long label refused", p.Pos(split.Pos()), "len(label) > 63 leads to an error return", "no label of the host name is measured against the 63-byte limit with an error return behind it")
+}
+
+// C19.okuse — a pointer or interface result of a call that also returns an
+// error is not dereferenced before that error was looked at.
+func ruleC19OkUse(c *Checker) {
+	const R = "C19.okuse"
+	c.rule(R, "For every call in the module whose results are (…, T, …, error) with T a pointer, interface or map type: an instruction that dereferences the T result (a method call on it, a field access, a load through it, a store into it) is reached only past the edge on which the call's error is nil, or past a not-nil test of the result itself; likewise the value of a comma-ok map lookup or type assertion of such a type is dereferenced only past its ok edge. Two statements swapped so that `x.Field` comes before `if err != nil { return }` compile and pass every test that does not make the call fail — and panic with a nil dereference on the first input that does (a corrupt tar block, an unparsable URL, a failing Lstat).", 20)
+	p := c.P
+	n := 0
+	for _, fn := range p.Funcs {
+		if !p.InModule(fn) {
+			continue
+		}
+		eachInstr(fn, func(in ssa.Instruction) {
+			var tup ssa.Value
+			switch x := in.(type) {
+			case *ssa.Lookup:
+				if x.CommaOk {
+					tup = x
+				}
+			case *ssa.TypeAssert:
+				if x.CommaOk {
+					tup = x
+				}
+			}
+			if tup == nil || tup.Referrers() == nil {
+				return
+			}
+			var val, okv ssa.Value
+			for _, r := range *tup.Referrers() {
+				if ex, isEx := r.(*ssa.Extract); isEx {
+					if ex.Index == 0 {
+						val = ex
+					} else {
+						okv = ex
+					}
+				}
+			}
+			if val == nil || okv == nil || val.Referrers() == nil {
+				return
+			}
+			switch val.Type().Underlying().(type) {
+			case *types.Pointer, *types.Interface:
+			default:
+				return
+			}
+			okT, _ := boolEdges(fn, okv)
+			for _, r := range *val.Referrers() {
+				ci2, isCall := r.(ssa.CallInstruction)
+				deref := isCall && ci2.Common().IsInvoke() && ci2.Common().Value == val
+				if fa, isFA := r.(*ssa.FieldAddr); isFA && fa.X == val {
+					deref = true
+				}
+				if !deref {
+					continue
+				}
+				n++
+				safe := len(okT) > 0 && guarded(r.Block(), okT)
+				// or past a not-nil test of the value
+				for _, b2 := range fn.Blocks {
+					ifi, ok := b2.Instrs[len(b2.Instrs)-1].(*ssa.If)
+					if !ok {
+						continue
+					}
+					cnd, neg := stripNot(ifi.Cond)
+					bo, ok := cnd.(*ssa.BinOp)
+					if !ok || (bo.Op != token.EQL && bo.Op != token.NEQ) || !((bo.X == val && isNilConst(bo.Y)) || (bo.Y == val && isNilConst(bo.X))) {
+						continue
+					}
+					nn := 0
+					if (bo.Op == token.EQL) != neg {
+						nn = 1
+					}
+					if guarded(r.Block(), []Edge{{b2, nn}}) {
+						safe = true
+					}
+				}
+				c.check(safe, R, p.FuncName(fn), fmt.Sprintf("comma-ok value used past its ok edge#%d", n), p.Pos(r.Pos()), "past the ok edge", "the value of a comma-ok lookup / type assertion is used (a method is called on it) on a path where ok may be false: the zero value is nil and this panics — e.g. an unknown source type")
+			}
+		})
+		for _, ci := range callsIn(fn) {
+			cl, ok := ci.(*ssa.Call)
+			if !ok {
+				continue
+			}
+			res := cl.Call.Signature().Results()
+			if res.Len() < 2 || !isErrorType(res.At(res.Len()-1).Type()) {
+				continue
+			}
+			ev := extractOf(cl, res.Len()-1)
+			for ri := 0; ri < res.Len()-1; ri++ {
+				switch res.At(ri).Type().Underlying().(type) {
+				case *types.Pointer, *types.Interface, *types.Map:
+				default:
+					continue
+				}
+				rv := extractOf(cl, ri)
+				if rv == nil || rv.Referrers() == nil {
+					continue
+				}
+				// the edges on which the call is known to have succeeded, or the value known not to be nil
+				var looked []Edge
+				isCmp := func(v ssa.Value, x ssa.Value) bool {
+					bo, ok := v.(*ssa.BinOp)
+					if !ok || (bo.Op != token.EQL && bo.Op != token.NEQ) {
+						return false
+					}
+					return (canon(bo.X) == x && isNilConst(bo.Y)) || (canon(bo.Y) == x && isNilConst(bo.X))
+				}
+				_ = ev
+				okE, _ := okEdgesOfCall(cl)
+				looked = append(looked, okE...)
+				// value != nil (true edge) / value == nil (false edge)
+				for _, b2 := range fn.Blocks {
+					ifi, ok := b2.Instrs[len(b2.Instrs)-1].(*ssa.If)
+					if !ok {
+						continue
+					}
+					cnd, neg := stripNot(ifi.Cond)
+					if !isCmp(cnd, rv) {
+						continue
+					}
+					nn := 0
+					if (cnd.(*ssa.BinOp).Op == token.EQL) != neg {
+						nn = 1
+					}
+					looked = append(looked, Edge{b2, nn})
+				}
+				for _, r := range *rv.Referrers() {
+					deref := false
+					switch x := r.(type) {
+					case *ssa.FieldAddr:
+						deref = x.X == rv
+					case *ssa.UnOp:
+						deref = x.Op == token.MUL && x.X == rv
+					case *ssa.Lookup:
+						deref = false // a nil map may be read
+					case *ssa.MapUpdate:
+						deref = x.Map == rv
+					case ssa.CallInstruction:
+						cc := x.Common()
+						if cc.IsInvoke() && cc.Value == rv {
+							deref = true
+						}
+						if !cc.IsInvoke() && len(cc.Args) > 0 && cc.Args[0] == rv && cc.StaticCallee() != nil && cc.StaticCallee().Signature.Recv() != nil {
+							// a method on a pointer receiver: most tolerate nil badly; (*os.File).Close and friends return ErrInvalid
+							if o := calleeObj(x); o != nil && o.Name() == "Close" {
+								deref = false
+							} else {
+								deref = true
+							}
+						}
+					}
+					if !deref {
+						continue
+					}
+					n++
+					okU := len(looked) > 0
+					if okU {
+						okU = false
+						for _, e := range looked {
+							if guarded(r.Block(), []Edge{e}) {
+								okU = true
+							}
+						}
+						// same block as a test cannot be (a test ends its block); a use in the block right after counts via guarded
+					}
+					c.check(okU, R, p.FuncName(fn), fmt.Sprintf("result of %s used after its error was looked at#%d", shortCallee(fullName(calleeObj(cl))), n), p.Pos(r.Pos()), "every dereference lies past the error-is-nil edge (or a not-nil test of the value)", "the "+res.At(ri).Type().String()+" result of "+fullName(calleeObj(cl))+" is dereferenced on a path where the call is not yet known to have succeeded: when it fails the result is nil and this panics")
+				}
+			}
+		}
+	}
 }
